@@ -126,5 +126,5 @@ pub fn parse_decl_text(text: &Result<String, String>) -> Result<Decl, (String, S
 }
 
 pub fn fail_json(against: &str, v: &Value, f: &tsmodel::Fail) -> Value {
-    json!({"against": against, "value": v, "path": f.path, "reason": f.reason, "in_decl": f.in_decl})
+    json!({"against": against, "value": v, "path": f.path, "reason": f.reason, "in_decl": f.in_decl, "also": f.also})
 }
